@@ -65,6 +65,27 @@ class P11:
     def alive(self):
         return self.p.poll() is None
 
+    def send(self, line):
+        """start an op without waiting for its answer (the call may be paused by the shim); recv() collects it"""
+        self._pending = line
+        self.p.stdin.write(line + '\n')
+        self.p.stdin.flush()
+
+    def recv(self):
+        import select
+        line = self._pending
+        rd, _, _ = select.select([self.p.stdout], [], [], self.timeout)
+        out = self.p.stdout.readline() if rd else ''
+        if not out.strip():
+            r = {'rv': 'DIED' if rd else 'HANG', 'line': out}
+        else:
+            try:
+                r = kapi.parse_real_line(out)
+            except Exception:
+                r = {'rv': '?', 'line': out}
+        self.trace.append((line, r))
+        return r
+
     def rv(self, line):
         r = self.op(line)
         try:
